@@ -90,7 +90,9 @@ func (ex *Exec) intToFP(t *smt.Term, bits uint, signed bool) *smt.Term {
 }
 
 // fpToInt converts float64 to a k-bit integer. Go leaves the result implementation-defined
-// when the truncated value does not fit: that is an obligation ("float-to-int in range").
+// when the truncated value does not fit; this models GOARCH=amd64 (CVTTSD2SL / CVTTSD2SQ):
+// an out-of-range or NaN operand yields the minimum value of the 32/64-bit signed type.
+// Other target widths are supported only when the operand is provably in range.
 func (ex *Exec) fpToInt(fr *frame, pos token.Pos, t *smt.Term, bits uint, signed bool) *smt.Term {
 	b := ex.b
 	var lo, hi *big.Int
@@ -100,21 +102,26 @@ func (ex *Exec) fpToInt(fr *frame, pos token.Pos, t *smt.Term, bits uint, signed
 	} else {
 		lo, hi = big0, new(big.Int).Sub(smt.Pow2(bits), big1)
 	}
+	amd64 := signed && (bits == 32 || bits == 64)
 	if c, ok := fpConstVal(t); ok {
-		if math.IsNaN(c) || math.IsInf(c, 0) {
-			ex.oblige("float2int", "float to integer conversion out of range", fr, pos, b.False)
+		in := !(math.IsNaN(c) || math.IsInf(c, 0))
+		var bi *big.Int
+		if in {
+			bi, _ = new(big.Float).SetFloat64(math.Trunc(c)).Int(nil)
+			in = bi.Cmp(lo) >= 0 && bi.Cmp(hi) <= 0
 		}
-		bi, _ := new(big.Float).SetFloat64(math.Trunc(c)).Int(nil)
-		if bi.Cmp(lo) < 0 || bi.Cmp(hi) > 0 {
-			ex.oblige("float2int", "float to integer conversion out of range", fr, pos, b.False)
+		if in {
+			return b.Int(bi)
 		}
-		return b.Int(bi)
+		if amd64 {
+			return b.Int(lo)
+		}
+		panic(ex.unsupported("out-of-range float to integer conversion for this width"))
 	}
-	// in-range test in FP: lo-1 < x < hi+1 (both bounds are exactly representable for the widths used: 2^k)
+	// in-range test in FP: lo-1 < x < hi+1 (2^k bounds are exactly representable)
 	lof, _ := new(big.Float).SetInt(new(big.Int).Sub(lo, big1)).Float64()
 	hif, _ := new(big.Float).SetInt(new(big.Int).Add(hi, big1)).Float64()
 	inr := b.And(ex.fpRaw(smt.SBool, "fp.gt", t, ex.fpConst(lof)), ex.fpRaw(smt.SBool, "fp.lt", t, ex.fpConst(hif)))
-	ex.oblige("float2int", "float to integer conversion out of range", fr, pos, inr)
 	var bv *smt.Term
 	if signed {
 		bv = ex.fpRaw(smt.BVSort(bits), fmt.Sprintf("(_ fp.to_sbv %d) RTZ", bits), t)
@@ -122,7 +129,14 @@ func (ex *Exec) fpToInt(fr *frame, pos token.Pos, t *smt.Term, bits uint, signed
 		bv = ex.fpRaw(smt.BVSort(bits), fmt.Sprintf("(_ fp.to_ubv %d) RTZ", bits), t)
 	}
 	u := b.RawRange("bv2nat", big0, new(big.Int).Sub(smt.Pow2(bits), big1), bv)
-	return b.Wrap(u, bits, signed)
+	conv := b.Wrap(u, bits, signed)
+	if amd64 {
+		return b.Ite(inr, conv, b.Int(lo))
+	}
+	if ex.checkSat(b.Not(inr)) != smt.Unsat {
+		panic(ex.unsupported("possibly out-of-range float to integer conversion for this width"))
+	}
+	return conv
 }
 
 func (ex *Exec) fpIsNaN(t *smt.Term) *smt.Term {
